@@ -232,9 +232,9 @@ def r16de(prog, rep, parse):
         if not t or t['t'] != 'switch':
             continue
         d = mir.provenance(parse, t['discr'], follow_all_call_args=True)
-        if any(x.short in ('len', 'count') for x in d.calls) and any(op in ('Eq', 'Ne') for op, _ in d.binops) and \
-                any(re.search(r'(^|\D)3(_usize)?$', str(cv[1])) for cv in d.consts):
-            count_checked = True
+        if (any(x.short in ('len', 'count') for x in d.calls) or any(op == 'PtrMetadata' for op, _ in d.unops)) and \
+                any(op in ('Eq', 'Ne') for op, _ in d.binops) and any(re.search(r'(^|\D)3(_usize)?$', str(cv[1])) for cv in d.consts):
+            count_checked = True      # `parts.len() != 3`, or a slice pattern `[a, b, c]` (a length test against 3)
     if bounded:
         rep.violation('R16e', 'specification-has-exactly-three-fields', where=bounded[0].where(), fn=parse.name,
                       detail='the specification is cut with %s: a string with more than three fields is no longer rejected but folded into the symbol '
